@@ -661,8 +661,10 @@ func TestC12(t *testing.T) {
 		}
 	}
 	throughStack(run, g, rng)
+	concurrentStack(run)
 	run.Require("api_cases", int64(n))
 	run.Require("stack_valid_cases", int64(rep.Pick(350, 5000)/map[bool]int{true: 5, false: 1}[rep.Mode() == "race"]))
+	run.Require("stack_concurrent_cases", int64(rep.Pick(800, 12000)/map[bool]int{true: 3, false: 1}[rep.Mode() == "race"]))
 	run.Require("stack_invalid_cases", int64(rep.Pick(80, 1000)/map[bool]int{true: 5, false: 1}[rep.Mode() == "race"]))
 	run.Finish(t)
 }
@@ -771,6 +773,89 @@ func throughStack(run *rep.Run, g *gen, rng *rand.Rand) {
 		wit["upstream"] = json.RawMessage(truncJSON(r.Body))
 		got, xerr := extractOpenAI(o)
 		compare(run, want, got, xerr, wit)
+	}
+}
+
+// concurrentStack: the same comparison while 48 clients keep translated requests in flight
+// through one stack; every upstream record is matched to its request by a header the
+// client set, so a body that belongs to another client's request shows as a difference.
+func concurrentStack(run *rep.Run) {
+	b := backend.NewStd("sg", []string{"mall", "claude-3-5-sonnet", "m-x"}, nil)
+	b.KeepBodies = true
+	b.SetProxy(func(r *backend.Record) *backend.Resp {
+		resp := llmresp.Handler("sg")(r)
+		resp.Gap = 0
+		return resp
+	})
+	defer b.Close()
+	for _, eng := range []string{"sherpa", "olla"} {
+		w, err := world.Start(world.Spec{Engine: eng, Balancer: "priority", Endpoints: []world.Endpoint{{Name: "sg", URL: b.URL(), Type: "sglang", Priority: 100}}})
+		if err != nil {
+			run.Inconclusive("world failed to start: " + err.Error())
+			return
+		}
+		b.ResetRecords()
+		n := rep.Pick(400, 6000)
+		if rep.Mode() == "race" {
+			n = rep.Pick(160, 1200)
+		}
+		type sent struct {
+			nonce  string
+			body   []byte
+			want   meaning
+			status int
+		}
+		const workers = 48 // far more requests in flight than CPUs, so that translation and sending of different requests interleave
+		all := make([][]*sent, workers)
+		var wg sync.WaitGroup
+		for wk := 0; wk < workers; wk++ {
+			wg.Add(1)
+			go func(wk int) {
+				defer wg.Done()
+				rng := rand.New(rand.NewSource(rep.Seed()*7919 + int64(wk)))
+				g := &gen{rng: rng}
+				hc := world.NewClient(true, 20*time.Second)
+				for i := wk; i < n; i += workers {
+					doc, want := g.request()
+					body, _ := json.Marshal(doc)
+					s := &sent{nonce: fmt.Sprintf("cs-%s-%d-%d", eng, wk, i), body: body, want: want}
+					req, _ := http.NewRequest("POST", w.Base+"/olla/anthropic/v1/messages", bytes.NewReader(body))
+					req.Header.Set("Content-Type", "application/json")
+					req.Header.Set("X-Verif-Nonce", s.nonce)
+					s.status = client.Do(hc, req).Status
+					all[wk] = append(all[wk], s)
+				}
+			}(wk)
+		}
+		wg.Wait()
+		b.WaitIdle(3 * time.Second)
+		recs := map[string][]*backend.Record{}
+		for _, r := range b.ProxyRecords() {
+			k := r.Get("X-Verif-Nonce")
+			recs[k] = append(recs[k], r)
+		}
+		for _, ss := range all {
+			for _, s := range ss {
+				run.Eval(fmt.Sprintf("cstack:%s:%x", eng, hash(s.body)))
+				run.Count("stack_concurrent_cases", 1)
+				wit := map[string]any{"engine": eng, "request": json.RawMessage(truncJSON(s.body)), "client_status": s.status}
+				rs := recs[s.nonce]
+				if len(rs) != 1 {
+					run.Violation("C12/stack/valid-request-not-forwarded/concurrent", fmt.Sprintf("valid request produced %d upstream requests (status %d)", len(rs), s.status), wit)
+					continue
+				}
+				var o map[string]any
+				if json.Unmarshal(rs[0].Body, &o) != nil {
+					wit["upstream_prefix"] = string(rs[0].Body[:min(len(rs[0].Body), 400)])
+					run.Violation("C12/upstream-malformed/concurrent", "upstream body is not JSON while other translated requests were in flight", wit)
+					continue
+				}
+				wit["upstream"] = json.RawMessage(truncJSON(rs[0].Body))
+				got, xerr := extractOpenAI(o)
+				compare(run, s.want, got, xerr, wit)
+			}
+		}
+		w.Stop()
 	}
 }
 
